@@ -150,7 +150,7 @@ def theorem_for(t):
         return None
     if D == "DIso" and J in ("JT", "JSpace") and T == "THMS" and O in ("OZ", "OUTC", "OGMT"):
         return "C02_parse_render_iso_utc"
-    if D == "DIso" and J in ("JT", "JSpace") and T == "THM" and O in ("OHH_MM", "OHH"):
+    if D == "DIso" and J in ("JT", "JSpace") and T in ("THM", "THMS") and O in ("OHH_MM", "OHH"):
         return "C02_parse_render_iso_offset"
     return None
 
